@@ -9,6 +9,7 @@ A check module (vlib/checks/cXX.py) provides
 result dict keys (all optional except violations):
     violations : [ {key, msg, witness} ]      key = mechanism key used to match KNOWN_FINDINGS.json
     sig        : list identifying the case class (for distinct_nontrivial)
+    sigs       : alternatively, a list of signatures of the non-trivial sub-cases judged inside this case
     nontrivial : bool
     counters   : {name: int}      summed over cases
     sets       : {name: [items]}  unioned over cases, reported as distinct counts (+ a few members)
@@ -163,7 +164,10 @@ def _conclude(mod, tier, seed, specs, results, problems, stopped_by, t0):
             s = sets.setdefault(k, set())
             for it in items:
                 s.add(json.dumps(it, sort_keys=True) if not isinstance(it, str) else it)
-        if r.get("nontrivial"):
+        if r.get("sigs"):  # a case made of several judged sub-cases (traces, histories, fault positions)
+            for sg in r["sigs"]:
+                sigs.add(json.dumps(sg, sort_keys=True))
+        elif r.get("nontrivial"):
             sigs.add(json.dumps(r.get("sig"), sort_keys=True))
         if r.get("sample") is not None and len(samples) < 5:
             samples.append(r["sample"])
